@@ -375,7 +375,10 @@ func (sc *serverConn) readLoop() (err error) {
 				return errConnClosed
 			}
 
-			sc.reader <- fr
+			if !sc.forward(fr) {
+				return errConnClosed
+			}
+
 			continue
 		}
 
@@ -387,7 +390,10 @@ func (sc *serverConn) readLoop() (err error) {
 				sc.handleSettings(st)
 				// forward to handleStreams so the INITIAL_WINDOW_SIZE delta is
 				// applied to open streams in frame order.
-				sc.reader <- fr
+				if !sc.forward(fr) {
+					return errConnClosed
+				}
+
 				continue
 			}
 		case FrameWindowUpdate:
@@ -399,7 +405,10 @@ func (sc *serverConn) readLoop() (err error) {
 			}
 
 			// the actual window bookkeeping happens in handleStreams.
-			sc.reader <- fr
+			if !sc.forward(fr) {
+				return errConnClosed
+			}
+
 			continue
 		case FramePing:
 			ping := fr.Body().(*Ping)
@@ -423,6 +432,20 @@ func (sc *serverConn) readLoop() (err error) {
 	}
 
 	return err
+}
+
+// forward hands a frame to the stream loop. It reports false, having released
+// the frame, once the stream loop has ended: writeStop is closed right after
+// handleStreams returns, and from then on nothing reads sc.reader, so a send
+// into the full queue would never complete.
+func (sc *serverConn) forward(fr *FrameHeader) bool {
+	select {
+	case sc.reader <- fr:
+		return true
+	case <-sc.writeStop:
+		ReleaseFrameHeader(fr)
+		return false
+	}
 }
 
 // handleStreams handles everything related to the streams
